@@ -157,6 +157,12 @@ pub(super) trait DialectHandler: Any + Debug {
         false
     }
 
+    /// The LIMIT to emit when a query has an OFFSET but no upper bound, for
+    /// dialects whose grammar does not accept an OFFSET without a LIMIT.
+    fn limit_for_unbounded_offset(&self) -> Option<i64> {
+        None
+    }
+
     fn ident_quote(&self) -> char {
         '"'
     }
@@ -407,6 +413,12 @@ impl DialectHandler for GlareDbDialect {
 }
 
 impl DialectHandler for SQLiteDialect {
+    // SQLite's grammar has no OFFSET without LIMIT; a negative LIMIT means "no limit".
+    // https://www.sqlite.org/lang_select.html#the_limit_clause
+    fn limit_for_unbounded_offset(&self) -> Option<i64> {
+        Some(-1)
+    }
+
     fn set_ops_distinct(&self) -> bool {
         false
     }
